@@ -4,21 +4,19 @@
   lemmas are in Deepali/Proofs/ImageIO{Meta,Shuffle,Nifti}.lean.
 
   The theorems cover header grammar, field order, the TransformMatrix layout, the channel-axis
-  shuffle, the NIfTI affine with the LPS↔RAS flips, and the world-axes conversion of flow fields.
-  The byte encoding of voxels (numpy tobytes, zlib, nibabel, ITK) is trusted and only exercised
-  by the harness.
+  shuffle, the NIfTI affine with the LPS↔RAS flips, the NIfTI scalar / vector data layout, and
+  the world-axes conversion of flow fields.  The byte encoding of voxels (numpy tobytes, zlib,
+  nibabel, ITK) is trusted and only exercised by the harness.
 
-  The reader/writer AS THEY STAND violate three clauses (F-18a/b/c, plus F-18d found here); for
-  these the full statement is a `def …_Statement`, refuted with a concrete witness, the part that
-  holds is `…_partial`, and `…_fixed` is the full statement for the reader/writer with the
-  repairs of FINDINGS_C18.md.
+  The model follows /repo after the `fix:` commits c9805be, f7684dd (F-18c, F-18b: MetaImage
+  reader), 5ccdadc (F-18a: NIfTI writer), 91f545a (F-18d: NIfTI reader); the former
+  `…_refuted` / `…_partial` / `…_fixed` triples are replaced by the full-strength statements.
 
-  OBLIGATIONS: C18_meta_header_roundtrip_partial C18_meta_header_roundtrip_refuted
-    C18_meta_header_multichannel_refuted C18_meta_header_roundtrip_fixed C18_meta_header_lines
+  OBLIGATIONS: C18_meta_header_roundtrip C18_meta_header_lines
     C18_transform_matrix_layout C18_transform_matrix_roundtrip C18_elemtype_table_roundtrip
     C18_axis_shuffle_inverse C18_axis_shuffle_inverse_file C18_axis_shuffle_data C18_file_layout
-    C18_lps_ras_involution C18_nifti_write_refuted C18_nifti_write_always_raises
-    C18_nifti_vector_intent_refuted C18_nifti_geometry_roundtrip_fixed C18_nifti_pixdim
+    C18_lps_ras_involution C18_nifti_geometry_roundtrip C18_nifti_pixdim
+    C18_nifti_layout_roundtrip C18_nifti_shape_roundtrip_3d C18_nifti_shape_roundtrip_2d
     C18_flow_world_roundtrip C18_flow_world_roundtrip'
 -/
 import Deepali.Proofs.ImageIOMeta
@@ -33,48 +31,22 @@ open Deepali.MetaIO Deepali.Nifti Matrix
 
 /-! ### MetaImage header: `parse (serialise h) = some h` -/
 
-/-- The header clause of C18 for a reader `fix`: every well-formed header (explicit decidable
-    predicate `Header.WF`: D ≥ 1 spatial dimensions, ≥ 1 channel, origin/spacing of length D,
-    direction D×D, compressed size present iff compressed), D ∈ {2, 3}, any channel count and
-    element type, is recovered exactly by parsing the lines the writer emits. -/
-def C18_meta_header_roundtrip_Statement (fix : Fix) : Prop :=
-  ∀ h : Header ℚ, h.WF → (h.ndims = 2 ∨ h.ndims = 3) → roundtrip fix h = .ok h.toRead
+/-- Every well-formed header (explicit decidable predicate `Header.WF`: D ≥ 1 spatial dimensions,
+    ≥ 1 channel, origin/spacing of length D, direction D×D, compressed size present iff
+    compressed) — every D ≥ 1 (in particular 2 and 3), every channel count, element type,
+    compression flag, origin, spacing and direction — is recovered exactly by parsing the lines
+    the writer emits (any scalar type: no arithmetic is involved). -/
+theorem C18_meta_header_roundtrip {α : Type} [NatCast α] (h : Header α) (hWF : h.WF) :
+    roundtrip h = .ok h.toRead :=
+  roundtrip_ok h hWF
 
-/-- witness of F-18b: a 2-D scalar image on a grid rotated by atan(4/3). -/
+/-- regression instance of F-18b: a 2-D scalar image on a grid rotated by atan(4/3). -/
 def c18Witness2D : Header ℚ :=
   { dimSize := [5, 4], channels := 1, elementType := .int16, compressed := false, compressedSize := none, offset := [3 / 2, -9 / 4], spacing := [1 / 2, 5 / 4], direction := [3 / 5, -4 / 5, 4 / 5, 3 / 5] }
 
-/-- witness of F-18c: a 3-D two-channel image. -/
+/-- regression instance of F-18c: a 3-D two-channel image. -/
 def c18Witness3D2C : Header ℚ :=
   { dimSize := [5, 4, 3], channels := 2, elementType := .float32, compressed := true, compressedSize := some 84, offset := [3 / 2, -9 / 4, 1 / 10], spacing := [1 / 2, 5 / 4, 3 / 10], direction := [0, -1, 0, 1, 0, 0, 0, 0, 1] }
-
-/-- F-18b: the reader as it stands (`reshape(3, 3)`) rejects the 2-D header deepali writes. -/
-theorem C18_meta_header_roundtrip_refuted : ¬ C18_meta_header_roundtrip_Statement .none := by
-  intro hS
-  have h := hS c18Witness2D (by decide) (Or.inl rfl)
-  have e : roundtrip .none c18Witness2D = .error .value := by decide +kernel
-  rw [e] at h
-  cases h
-
-/-- F-18c: the reader as it stands ends in a `TypeError` for a well-formed 3-D header with
-    two channels. -/
-theorem C18_meta_header_multichannel_refuted :
-    c18Witness3D2C.WF ∧ c18Witness3D2C.ndims = 3 ∧ roundtrip .none c18Witness3D2C = .error .type := by
-  refine ⟨by decide, rfl, by decide +kernel⟩
-
-/-- What holds for the reader as it stands: every well-formed 3-D single-channel header, any
-    size, element type, compression flag, origin, spacing and direction, is recovered exactly
-    (any scalar type: no arithmetic is involved).
-    Missing w.r.t. the statement: D = 2 (F-18b) and channels > 1 (F-18c). -/
-theorem C18_meta_header_roundtrip_partial {α : Type} [NatCast α] (h : Header α) (hWF : h.WF)
-    (h3 : h.ndims = 3) (h1 : h.channels = 1) : roundtrip .none h = .ok h.toRead :=
-  roundtrip_ok .none h hWF (by simp [Fix.matrixDim, h3]) (fun _ => h1)
-
-/-- With the two one-line repairs of FINDINGS_C18.md the full statement holds — for every
-    D ≥ 1, every channel count. -/
-theorem C18_meta_header_roundtrip_fixed {α : Type} [NatCast α] (h : Header α) (hWF : h.WF) :
-    roundtrip .proposed h = .ok h.toRead :=
-  roundtrip_ok .proposed h hWF rfl (fun e => by cases e)
 
 /-- The lines deepali writes, in this order (`headerLines`): ObjectType, NDims, CompressedData,
     [CompressedDataSize], BinaryData, BinaryDataByteOrderMSB, Offset, TransformMatrix,
@@ -152,61 +124,83 @@ theorem C18_lps_ras_involution {K : Type} [Field K] {n m : Nat} (A : Fin n → F
 section
 variable {K : Type} [Field K] [LinearOrder K] [IsStrictOrderedRing K] [FloorRing K] {d : Nat}
 
-/-- The NIfTI write clause of C18: for 2-D and 3-D grids the writer hands nibabel an affine it accepts. -/
-def C18_nifti_write_Statement : Prop :=
-  ∀ (d : Nat) (g : Grid d ℚ), (d = 2 ∨ d = 3) → ∃ A, writeAffine g = .ok A
-
-/-- F-18a: `write_nifti_image` passes the D×D matrix `grid.affine()`; nibabel rejects it —
-    for EVERY 2-D or 3-D grid. -/
-theorem C18_nifti_write_always_raises (g : Grid d K) (hd : d = 2 ∨ d = 3) : writeAffine g = .error .value :=
-  writeAffine_error g (by omega)
-
-theorem C18_nifti_write_refuted : ¬ C18_nifti_write_Statement := by
-  intro hS
-  obtain ⟨A, hA⟩ := hS 2 exampleGrid (Or.inl rfl)
-  rw [C18_nifti_write_always_raises exampleGrid (Or.inl rfl)] at hA
-  cases hA
-
-/-- F-18d: a 5×4×3 image with 2 components as ITK writes it (`dim = 5, 5,4,3,1,2`, intent 1007):
-    the reader as it stands keeps `shape[5:]` and cannot reshape; with the repair (`shape[4:]`,
-    D from `realdim`) it returns `(2, 3, 4, 5)`, and `(2, 4, 5)` on a 2-D grid for the 2-D file. -/
-theorem C18_nifti_vector_intent_refuted :
-    readShape false [5, 5, 4, 3, 1, 2, 1, 1] 1007 = .error .value ∧
-    readShape true [5, 5, 4, 3, 1, 2, 1, 1] 1007 = .ok [2, 3, 4, 5] ∧
-    readShape false [5, 5, 4, 1, 1, 2, 1, 1] 1007 = .error .value ∧
-    readShape true [5, 5, 4, 1, 1, 2, 1, 1] 1007 = .ok [2, 4, 5] ∧
-    gridDim true [5, 5, 4, 1, 1, 2, 1, 1] 1007 = 2 := by
-  decide +kernel
-
 /-- nibabel's voxel sizes (column norms of the affine) are the grid spacing. -/
 theorem C18_nifti_pixdim {g : Grid d K} (h : g.Valid) (j : Fin d) (p : K) (hp : 0 < p) (hs : 0 < g.spacing j)
     (hnorm : p * p = ∑ i, g.affine i j * g.affine i j) : p = g.spacing j :=
   pixdim_eq_spacing h j p hp hs hnorm
 
-/-- Geometry through the 4×4 affine (repaired writer, reader as it stands): for a 2-D or 3-D
-    grid with orthonormal direction and non-zero spacing, reading origin and direction back from
-    the affine — with `pixdim = spacing` (see `C18_nifti_pixdim`) — returns the grid's origin and
-    direction, provided no entry is a non-zero value below the reader's clamp `2⁻⁵²`. -/
-theorem C18_nifti_geometry_roundtrip_fixed {g : Grid d K} (h : g.Valid) (hd : d ≤ 3)
+/-- Geometry through the 4×4 affine: for a 1-, 2- or 3-D grid with orthonormal direction and
+    non-zero spacing, reading origin and direction back from the affine the writer builds — with
+    `pixdim = spacing` (see `C18_nifti_pixdim`) — returns the grid's origin and direction,
+    provided no entry is a non-zero value below the reader's clamp `2⁻⁵²`. -/
+theorem C18_nifti_geometry_roundtrip {g : Grid d K} (h : g.Valid) (hd : d ≤ 3)
     (ho : ∀ i, NotTiny (g.origin i)) (hR : ∀ i j, NotTiny (g.direction i j)) :
-    readOrigin d hd (writeAffineFixed g) = g.origin ∧
-    readDirection d hd (writeAffineFixed g) g.spacing = g.direction := by
+    readOrigin d hd (writeAffine g) = g.origin ∧
+    readDirection d hd (writeAffine g) g.spacing = g.direction := by
   constructor
   · funext i
     unfold readOrigin flipVec
-    simp only [writeAffineFixed_col3 g hd]
+    simp only [writeAffine_col3 g hd]
     rw [show (if i.val < 2 then -(if i.val < 2 then -g.origin i else g.origin i)
           else (if i.val < 2 then -g.origin i else g.origin i)) = g.origin i by split <;> simp]
     exact clampSmall_of_notTiny _ (ho i)
   · funext i j
     unfold readDirection flipRows
-    simp only [writeAffineFixed_block g hd]
+    simp only [writeAffine_block g hd]
     have hs := h.spacing_ne j
     rw [show (if i.val < 2 then -((if i.val < 2 then -(g.direction i j * g.spacing j)
             else g.direction i j * g.spacing j) / g.spacing j)
           else (if i.val < 2 then -(g.direction i j * g.spacing j) else g.direction i j * g.spacing j) / g.spacing j)
           = g.direction i j by split <;> field_simp]
     exact clampSmall_of_notTiny _ (hR i j)
+
+end
+
+/-! ### NIfTI data layout: scalar `X×Y[×Z]`, vector `X×Y[×Z]×1…×C` with intent VECTOR -/
+
+/-- The reader's squeeze/reverse/channel-axis step undoes the writer's layout for shapes
+    (`unit = 1`, `a = C`) and multi-indices (`unit = 0`, `a < C`), 3-D and 2-D, one or several
+    channels (`keepFrom` is 4 for the vector intent the writer sets when C > 1, 5 otherwise). -/
+theorem C18_nifti_layout_roundtrip (unit c a x y z : Nat) (hc : 1 ≤ c) (h1 : c = 1 → a = unit) :
+    fromNiftiOrder unit 3 (keepFrom (writeIntent (toNiftiOrder unit c 3 [a, z, y, x]))) 3
+        (toNiftiOrder unit c 3 [a, z, y, x]) = [a, z, y, x] ∧
+    fromNiftiOrder unit 2 (keepFrom (writeIntent (toNiftiOrder unit c 2 [a, y, x]))) 2
+        (toNiftiOrder unit c 2 [a, y, x]) = [a, y, x] := by
+  by_cases h : c = 1
+  · subst h; rw [h1 rfl]
+    simp [toNiftiOrder, fromNiftiOrder, writeIntent, keepFrom, vectorIntent]
+  · simp [toNiftiOrder, fromNiftiOrder, writeIntent, keepFrom, vectorIntent, h]
+
+/-- 3-D: from the header nibabel stores for the written array (`dim`, intent) the reader derives a
+    3-D grid and the tensor shape `(C, Z, Y, X)` — scalar and vector (C > 1) images; NIfTI cannot
+    tell a trailing axis of size 1 from a missing one, hence `2 ≤ z`. -/
+theorem C18_nifti_shape_roundtrip_3d (c x y z : Nat) (hc : 1 ≤ c) (hz : 2 ≤ z) :
+    let shape := toNiftiOrder 1 c 3 [c, z, y, x]
+    readShape (headerDim shape) (writeIntent shape) = .ok [c, z, y, x] ∧
+    gridDim (headerDim shape) (writeIntent shape) = 3 := by
+  have hz1 : 1 < z := by omega
+  by_cases h : c = 1
+  · subst h
+    simp [toNiftiOrder, headerDim, writeIntent, readShape, realDim, realDim.go, gridDim, vectorIntent, keepFrom,
+      fromNiftiOrder, prod, bind, Except.bind, pure, Except.pure]
+  · simp [toNiftiOrder, headerDim, writeIntent, readShape, realDim, gridDim, vectorIntent, keepFrom,
+      fromNiftiOrder, prod, bind, Except.bind, pure, Except.pure, h, hz1]
+
+/-- 2-D: the reader derives a 2-D grid and the tensor shape `(C, Y, X)` (`2 ≤ y`, as above). -/
+theorem C18_nifti_shape_roundtrip_2d (c x y : Nat) (hc : 1 ≤ c) (hy : 2 ≤ y) :
+    let shape := toNiftiOrder 1 c 2 [c, y, x]
+    readShape (headerDim shape) (writeIntent shape) = .ok [c, y, x] ∧
+    gridDim (headerDim shape) (writeIntent shape) = 2 := by
+  have hy1 : 1 < y := by omega
+  by_cases h : c = 1
+  · subst h
+    simp [toNiftiOrder, headerDim, writeIntent, readShape, realDim, realDim.go, gridDim, vectorIntent, keepFrom,
+      fromNiftiOrder, prod, bind, Except.bind, pure, Except.pure]
+  · simp [toNiftiOrder, headerDim, writeIntent, readShape, realDim, gridDim, vectorIntent, keepFrom,
+      fromNiftiOrder, prod, bind, Except.bind, pure, Except.pure, h, hy1]
+
+section
+variable {K : Type} [Field K] [LinearOrder K] [IsStrictOrderedRing K] [FloorRing K] {d : Nat}
 
 /-! ### flow fields: stored w.r.t. world axes, returned in the original representation -/
 
@@ -228,17 +222,22 @@ theorem C18_flow_world_roundtrip' {g : Grid d K} (h : g.Valid) (a : Axes) (ha : 
 
 end
 
-/-! ### non-vacuity -/
+/-! ### non-vacuity / regression instances -/
 
-/-- the two witnesses are well-formed headers; a well-formed 2-D two-channel compressed header exists. -/
+/-- the former witnesses are well-formed headers and round-trip now; a well-formed 2-D
+    two-channel compressed header exists. -/
 example : c18Witness2D.WF ∧ c18Witness3D2C.WF := ⟨by decide, by decide⟩
 example : ({ c18Witness2D with channels := 2, compressed := true, compressedSize := some 63 } : Header ℚ).WF := by
   decide
-/-- the repaired reader does recover the 2-D witness (and the 3-D two-channel one). -/
-example : roundtrip .proposed c18Witness2D = .ok c18Witness2D.toRead :=
-  C18_meta_header_roundtrip_fixed _ (by decide)
-example : roundtrip .proposed c18Witness3D2C = .ok c18Witness3D2C.toRead :=
-  C18_meta_header_roundtrip_fixed _ (by decide)
+example : roundtrip c18Witness2D = .ok c18Witness2D.toRead := C18_meta_header_roundtrip _ (by decide)
+example : roundtrip c18Witness3D2C = .ok c18Witness3D2C.toRead := C18_meta_header_roundtrip _ (by decide)
+/-- the ITK-style vector header of the former F-18d witness (`dim = 5, 5,4,3,1,2`, intent 1007) is what
+    the writer produces for a (2, 3, 4, 5) tensor, and it reads back. -/
+example : headerDim (toNiftiOrder 1 2 3 [2, 3, 4, 5]) = [5, 5, 4, 3, 1, 2, 1, 1] ∧
+    writeIntent (toNiftiOrder 1 2 3 [2, 3, 4, 5]) = 1007 ∧
+    readShape [5, 5, 4, 3, 1, 2, 1, 1] 1007 = .ok [2, 3, 4, 5] ∧
+    readShape [5, 5, 4, 1, 1, 2, 1, 1] 1007 = .ok [2, 4, 5] ∧ gridDim [5, 5, 4, 1, 1, 2, 1, 1] 1007 = 2 := by
+  decide +kernel
 /-- a valid rotated anisotropic grid with admissible cube-corner axes exists (Proofs/Examples). -/
 example : exampleGrid.Valid ∧ ∀ a, exampleGrid.CornersOK a := ⟨exampleGrid_valid, exampleGrid_cornersOK⟩
 /-- `NotTiny` holds for ordinary values. -/
